@@ -70,6 +70,7 @@ func NewSession(repo, specDir, work string) (*Session, error) {
 	if err := ex.LoadSpec(); err != nil {
 		return nil, err
 	}
+	ex.AlignClosures()
 	ex.IndexFunctions()
 	ex.RunInits()
 	s := &Session{Ex: ex, RepoDir: repo, SpecDir: specDir, WorkDir: work, TimeoutS: 10, Parallel: 14, ContractFiles: files, IdenticalInstances: map[string]int{}}
